@@ -11,13 +11,13 @@ namespace DaeVerif.C03
 /-! ## transfer along `World.rest` -/
 
 theorem rest_alive {w1 w : World} (h : w1.rest = w.rest) : w1.alive = w.alive := by
-  unfold World.rest at h; simp only [Prod.mk.injEq] at h; exact h.2.2.2.2.2.2.1
+  unfold World.rest at h; simp only [Prod.mk.injEq] at h; exact h.2.2.2.2.2.1
 
 theorem rest_param {w1 w : World} (h : w1.rest = w.rest) : w1.param = w.param := by
-  unfold World.rest at h; simp only [Prod.mk.injEq] at h; exact h.2.2.2.2.2.2.2.1
+  unfold World.rest at h; simp only [Prod.mk.injEq] at h; exact h.2.2.2.2.2.2.1
 
 theorem rest_now {w1 w : World} (h : w1.rest = w.rest) : w1.now = w.now := by
-  unfold World.rest at h; simp only [Prod.mk.injEq] at h; exact h.2.2.2.2.2.2.2.2
+  unfold World.rest at h; simp only [Prod.mk.injEq] at h; exact h.2.2.2.2.2.2.2
 
 theorem rest_handoff {w1 w : World} (h : w1.rest = w.rest) :
     w1.handoff = w.handoff ∧ w1.handoffCap = w.handoffCap := by
@@ -26,9 +26,6 @@ theorem rest_handoff {w1 w : World} (h : w1.rest = w.rest) :
 theorem rest_rtrack {w1 w : World} (h : w1.rest = w.rest) :
     w1.rtrack = w.rtrack ∧ w1.rtrackCap = w.rtrackCap := by
   unfold World.rest at h; simp only [Prod.mk.injEq] at h; exact ⟨h.2.2.2.1, h.2.2.2.2.1⟩
-
-theorem rest_cookies {w1 w : World} (h : w1.rest = w.rest) : w1.cookies = w.cookies := by
-  unfold World.rest at h; simp only [Prod.mk.injEq] at h; exact h.2.2.2.2.2.1
 
 theorem rest_connCap {w1 w : World} (h : w1.rest = w.rest) : w1.connCap = w.connCap := by
   unfold World.rest at h; simp only [Prod.mk.injEq] at h; exact h.1
@@ -56,6 +53,9 @@ theorem handoffRoom_congr {w1 w : World} (h : w1.rest = w.rest) (k : Key) :
 theorem realises_congr {w1 w : World} (h : w1.rest = w.rest) (o : Out) (s : Skb) (i : Bool) (f : Fate) :
     o.realises w1 s i f ↔ o.realises w s i f := by
   cases f <;> simp only [Out.realises, rest_param h]
+
+theorem pidIsControlPlane_rest (w : World) (s : Skb) : (pidIsControlPlane w s).w.rest = w.rest := by
+  unfold pidIsControlPlane; split <;> rfl
 
 theorem setConn_rest (w : World) (k : Key) (cs : ConnState) : (setConn w k cs).rest = w.rest := rfl
 
@@ -128,21 +128,46 @@ theorem udpLive_lookup (w : World) (k : Key) (cs : ConnState) (h : udpLive w k =
     · injection h with h; rw [hl, h]
   · simp at h
 
-/-- a touch without routing arguments keeps everything but `last_seen_ns` and `state` -/
-theorem touchTcp_fields (cs : ConnState) (now : Nat) (fr : Bool) :
-    let t := touchTcp cs now fr {}
-    t.outbound = cs.outbound ∧ t.mark = cs.mark ∧ t.must = cs.must ∧ t.hasRouting = cs.hasRouting ∧
-    t.wanDir = cs.wanDir ∧ t.dscp = cs.dscp ∧ t.mac = cs.mac ∧ t.pname = cs.pname ∧ t.pid = cs.pid := by
-  unfold touchTcp applyRouting refresh
-  cases fr <;> simp only [] <;> split <;> simp
+theorem applyRouting_none (cs : ConnState) (a : CtArgs) (h : a.rt = none) : applyRouting cs a = cs := by
+  unfold applyRouting; rw [h]
 
-theorem touchUdp_fields (cs : ConnState) (now : Nat) (a : CtArgs) (h : a.rt = none) :
-    let t := touchUdp cs now a
-    t.outbound = cs.outbound ∧ t.mark = cs.mark ∧ t.must = cs.must ∧ t.hasRouting = cs.hasRouting ∧
-    t.wanDir = cs.wanDir ∧ t.dscp = cs.dscp ∧ t.mac = cs.mac ∧ t.pname = cs.pname ∧ t.pid = cs.pid := by
-  unfold touchUdp applyRouting refresh
-  rw [h]
-  simp only []
-  split <;> simp
+/-- `refresh` only moves `last_seen_ns` -/
+theorem refresh_eq (cs : ConnState) (now : Nat) : ∃ t, refresh cs now = { cs with lastSeen := t } := by
+  unfold refresh
+  split
+  · exact ⟨now, rfl⟩
+  · exact ⟨cs.lastSeen, rfl⟩
+
+/-- a touch without routing arguments keeps everything but `last_seen_ns` and `state` -/
+theorem touchTcp_eq (cs : ConnState) (now : Nat) (fr : Bool) :
+    ∃ t st, touchTcp cs now fr {} = { cs with lastSeen := t, state := st } := by
+  unfold touchTcp
+  rw [applyRouting_none _ _ rfl]
+  obtain ⟨t, ht⟩ := refresh_eq cs now
+  rw [ht]
+  cases fr
+  · exact ⟨t, cs.state, rfl⟩
+  · exact ⟨t, 1, rfl⟩
+
+theorem touchUdp_eq (cs : ConnState) (now : Nat) (a : CtArgs) (h : a.rt = none) :
+    ∃ t, touchUdp cs now a = { cs with lastSeen := t } := by
+  unfold touchUdp
+  rw [applyRouting_none _ _ h]
+  exact refresh_eq cs now
+
+theorem createConn_full (w : World) (k : Key) (ns : ConnState) (udp : Bool) (pid : Nat) (h : ¬ connRoom w k) :
+    (createConn w k ns udp pid).2 = none := by
+  unfold createConn aupdate
+  unfold connRoom at h
+  have hge : (aerase w.conn k).length ≥ w.connCap := by omega
+  simp only [alookup_aerase_self, hge, if_true]
+  split <;> rfl
+
+theorem markTcpSeen_syn_full (w : World) (k : Key) (wd fr : Bool) (a : CtArgs) (h : ¬ connRoom w k) :
+    (markTcpSeen w k wd true fr a).2 = none := by
+  unfold markTcpSeen
+  rw [tcpLive_syn]
+  simp only [if_true]
+  exact createConn_full _ _ _ _ _ h
 
 end DaeVerif.C03
